@@ -13,6 +13,7 @@ import itertools
 import os
 import pathlib
 import posixpath
+import shutil
 import subprocess
 import sys
 import urllib.parse
@@ -26,13 +27,16 @@ RULE = ("path strings enumerated exhaustively over the component alphabet "
         "(N=3 quick, 4 thorough) x subdir settings x handlers x entry points, plus seeded random longer ones; "
         "HTTP URL templates: every escape (%s %q %d %n %e %%), no escape (default /%s), unknown and upper-case escapes, literal percent signs, "
         "lower-case percent-escapes in the template x subdirs x names with dots, query, fragment and percent characters; "
+        "real symbolic links (file/dir links, relative, '..', absolute, dangling, loops, links to links) on scratch trees read through the local handler and a git work tree; "
         "_tmpname on names around the 250-byte cut with 1-, 2-, 3- and 4-byte characters; "
         "distinct = distinct (stream, handler, subdir, name); non-trivial = the name contains a '..', '.', "
         "empty, absolute or special-character component, or a non-root subdir is configured")
 ASSUMPTIONS = [
     "pathlib.PurePosixPath / posixpath / urllib.parse.quote are the oracle for the path and quote models",
     "glart (GitLab artifacts) open() is exercised with its HTTP session stubbed; its __init__ needs a network and is bypassed",
-    "symlinks inside the handler root are not followed by the lexical theorem; the realpath monitor covers the scratch trees used here",
+    "symbolic links below the root are file-system content, not file names: the statement (and the confinement theorems) are lexical - about the paths handed to the OS; "
+    "what those paths physically denote is modelled separately (Model/Symlink.lean: realpath over a link table, tied to os.path.realpath on scratch trees with real links): "
+    "physically below the root iff the links allow it (proved for relative targets without '..'; an absolute or '..' target does lead outside - observed, counted, not a finding)",
 ]
 DRIVERS = ["Path"]
 MANIFEST = dict(
@@ -42,12 +46,13 @@ MANIFEST = dict(
           "invertible and emits no '?', '#', space (nor '/' with safe=''); the HTTP handler's URL template expansion (%s %q %d %n %e %%, "
           "default /%s, KeyError / ValueError branches) is modelled and for every template, subdir and name the requested URL has the "
           "template's literal prefix and exactly the template's '?', '#' and blanks; the temp-file name of the local handler is a clean "
-          "sibling of at most 255 bytes. The model is tied to /repo by an exhaustive "
+          "sibling of at most 255 bytes; with symbolic links below the root modelled as a link table, the physical location stays below the root whenever every "
+          "link there has a relative target without '..'. The model is tied to /repo by an exhaustive "
           "differential run over a component alphabet against pathlib, urllib and the real handlers with their backing "
           "stores intercepted; an independent lexical+realpath containment monitor is the failing-input search."),
     design_ref="§6 C14",
     note=("Trusted: Lean kernel; pathlib/posixpath/urllib as oracle; interception shims in harness/props/c14.py; "
-          "GitLab-artifacts __init__ bypassed (needs network); symlink behaviour only via realpath on scratch trees."),
+          "GitLab-artifacts __init__ bypassed (needs network); symbolic links: lexical confinement is what is claimed, physical confinement under safe links is proved and exercised."),
     technique="Lean 4 proof (induction over path components / bytes) + exhaustive differential correspondence with pathlib and the real handlers",
 )
 TRUSTED = ["C14: UTF-8 encoding of file names is done by CPython resp. Lean's String.toUTF8 (not modelled)"]
@@ -159,6 +164,107 @@ def make_git_repo(ctx: Ctx) -> pathlib.Path:
 
 
 # ------------------------------------------------------------------ the run
+
+
+LINK_LOCS = ["l", "a/l", "b/c/l", "x", "y", "a/m"]
+LINK_TARGETS_SAFE = ["b", "b/c", "./d//", "d/.", "x", "y", "a/l", "nonexistent", "f", "b/c/f", "l"]
+LINK_TARGETS_UNSAFE = ["..", "../..", "../b", "../../out", "/ABS_OUT", "/ABS_IN/b", "../nonexistent/z", "b/../../out/f"]
+LINK_NAMES = ["f", "l/f", "a/l/f", "a/l/../f", "l/../../f", "x", "x/f", "y/f", "b/c/l/f", "a/m/f", "l", "a/l/c/f", "/l/f", "l//./f", "b/../l/f", "l/c/l/f"]
+
+
+def symlink_stream(ctx: Ctx, out: Outcome, add, fh_local, fh_git, helpers) -> None:
+    import errno
+
+    rng = ctx.rng
+    top = pathlib.Path(os.path.realpath(ctx.scratch)) / "links"
+    top.mkdir()
+    outside = top / "out"
+    outside.mkdir()
+    (outside / "f").write_text(str(outside / "f"))
+    n_tables = ctx.pick(40, 400)
+    stats = {"tables": 0, "safe_tables": 0, "reads": 0, "outside_reads": 0, "loops": 0, "git_tables": 0}
+    for k in range(n_tables):
+        root = top / f"t{k}"
+        for d in ("a", "b/c", "d"):
+            (root / d).mkdir(parents=True)
+        for d in ("", "a", "b", "b/c", "d"):
+            fp = root / d / "f"
+            fp.write_text(str(fp))
+        safe_only = k % 3 == 0
+        pool = LINK_TARGETS_SAFE if safe_only else LINK_TARGETS_SAFE + LINK_TARGETS_UNSAFE + LINK_TARGETS_UNSAFE
+        links = []
+        for loc in rng.sample(LINK_LOCS, rng.randint(1, 4)):
+            t = rng.choice(pool).replace("/ABS_OUT", str(outside)).replace("/ABS_IN", str(root))
+            lp = root / loc
+            if lp.exists() or lp.is_symlink():
+                continue
+            try:
+                os.symlink(t, lp)
+            except OSError:
+                continue
+            links.append((loc, t))
+        stats["tables"] += 1
+        all_safe = all(not t.startswith("/") and ".." not in t.split("/") for _, t in links)
+        stats["safe_tables"] += all_safe
+        root_parts = list(root.parts[1:])
+        mlinks = [[root_parts + loc.split("/"), t] for loc, t in links]
+        use_git = k < ctx.pick(3, 12)
+        handlers = [("local", fh_local.LocalFileHandler(root, subdir=sd), sd) for sd in ("/", "a", "b/c")]
+        if use_git:
+            stats["git_tables"] += 1
+            g = lambda *a: subprocess.run(["git", *a], cwd=root, check=True, capture_output=True,  # noqa: E731
+                                          env={**os.environ, "GIT_AUTHOR_NAME": "t", "GIT_AUTHOR_EMAIL": "t@example.invalid", "GIT_COMMITTER_NAME": "t",
+                                               "GIT_COMMITTER_EMAIL": "t@example.invalid", "GIT_CONFIG_GLOBAL": "/dev/null", "GIT_CONFIG_SYSTEM": "/dev/null"})
+            g("-c", "init.defaultBranch=master", "init", "-q")
+            g("add", "-A")
+            g("commit", "-q", "-m", "links")
+            gh = fh_git.GitFileHandler(str(root), "master")
+            handlers.append(("git", gh, "/"))
+        for hname, fh, sd in handlers:
+            base = pathlib.Path(os.path.realpath(fh.cache_dir if hname == "git" else root))
+            base_parts = list(base.parts[1:])
+            hl = mlinks if hname == "local" else [[base_parts + loc.split("/"), t.replace(str(root), str(base))] for loc, t in links]
+            for n in LINK_NAMES:
+                composed = base / helpers.normalize_pure_path(sd) / helpers.normalize_pure_path(n)
+                loop = False
+                try:
+                    os.path.realpath(composed, strict=True)
+                except OSError as e:
+                    loop = e.errno == errno.ELOOP
+                phys = os.path.realpath(composed)
+                iv = "ELOOP" if loop else list(pathlib.PurePosixPath(phys).parts[1:])
+                if hname == "git":  # the work tree's links are those committed: absolute in-root targets still name the original tree
+                    hl = [[base_parts + loc.split("/"), t] for loc, t in links]
+                add("symlink.physical", [hname, links, sd, n], {"op": "path.physical", "links": hl, "root": base_parts, "handler": hname if hname != "local" else "local",
+                                                                  "subdir": sd, "name": n, "fuel": 400}, iv)
+                out.case(("link", k, hname, sd, n), nontrivial=bool(links))
+                stats["loops"] += loop
+                # what the handler really reads: every regular file contains its own physical path
+                try:
+                    with fh.open(n) as f:
+                        content = f.read().decode()
+                except OSError as e:
+                    content = None
+                    out.hit("symlink.open:" + (errno.errorcode.get(e.errno, type(e).__name__) if e.errno else type(e).__name__))
+                if content is not None:
+                    stats["reads"] += 1
+                    want = str(phys) if hname == "local" else None
+                    if hname == "local" and content != want:
+                        out.find("local.open|symlink|reads-unexpected-file", f"open({n!r}) subdir={sd!r} links={links} read the file {content!r}, realpath says {want!r}",
+                                 {"kind": "symlink", "links": links, "subdir": sd, "name": n})
+                    inside = content.startswith(str(root) + "/") or content.startswith(str(base) + "/")
+                    if not inside:
+                        stats["outside_reads"] += 1
+                        out.hit("symlink.open:outside-root:" + hname)
+                        if all_safe:
+                            out.find(f"{hname}.open|symlink|escapes-root-with-safe-links", f"open({n!r}) subdir={sd!r} links={links} read {content!r}",
+                                     {"kind": "symlink", "links": links, "subdir": sd, "name": n})
+                    else:
+                        out.hit("symlink.open:inside-root:" + hname)
+        if use_git:
+            gh._GitFileHandler__fnz()
+        shutil.rmtree(root, ignore_errors=True)
+    out.extra["symlinks"] = stats
 
 
 HTTP_TEMPLATES = ["https://h.invalid/base", "https://h.invalid/base/", "https://h.invalid/base//", "https://h.invalid/b/%s",
@@ -388,6 +494,11 @@ def run(ctx: Ctx) -> Outcome:
         finally:
             del fh_git.open
         del fh
+
+    # (h) symbolic links below the root: real links on scratch trees (directory and file links, relative / '..' / absolute
+    #     targets, links to links, dangling links, loops), the local handler and a git work tree reading through them;
+    #     the physical location (os.path.realpath of the path the handler composes) against the model's link walk
+    symlink_stream(ctx, out, add, fh_local, fh_git, helpers)
 
     # (g) HTTP URL templates: every escape of the template language, unknown escapes, literal percent signs, names with
     #     dots / query / fragment / percent characters; the request is intercepted at session.get
